@@ -1,8 +1,10 @@
 //! C29 — Markdown docs have valid links and verbatim documentation text.
 //!
-//! Space: a fixed world template with 30 documentation slots (world, imported / exported interface,
+//! Space: a fixed world template with 32 documentation slots (world, imported / exported interface,
 //! every kind of type, fields, cases, flags, resource members, functions, world-level items), types
-//! referenced from other types and from signatures, names shared between the two interfaces.
+//! referenced from other types and from signatures, names shared between the two interfaces, types
+//! `use`d from another interface plainly and renamed (`use imp.{t as u}`, in an interface and in the
+//! world) with the renamed type referenced from parameters, results, record fields and aliases.
 //! A case puts one fragment (quick) or two fragments (thorough) from the fragment alphabet into
 //! one / two slots, every other slot carries a plain unique sentence; x 2 layouts (fragment alone /
 //! between two marker lines) x 2 comment styles (`///`, `/** */`) x 2 world shapes.
@@ -131,17 +133,21 @@ interface imp {
 
 const IFACE_EXP: &str = r#"@@iface-export@@
 interface exp {
-  use imp.{rec-type};
+  use imp.{rec-type, var-type as renamed-var};
   @@export-alias@@
   type shared = string;
+  @@export-alias-of-renamed@@
+  type again = renamed-var;
   @@export-record@@
   record other-rec {
     @@export-record-field@@
     a: rec-type,
     b: shared,
+    c: renamed-var,
+    d: again,
   }
   @@export-func@@
-  do-it: func(a: other-rec) -> tuple<rec-type, shared>;
+  do-it: func(a: other-rec, v: renamed-var) -> tuple<rec-type, shared, renamed-var>;
 }
 "#;
 
@@ -149,16 +155,19 @@ const WORLD_A: &str = r#"@@world@@
 world w {
   import imp;
   export exp;
-  use imp.{rec-type, var-type};
+  use imp.{rec-type, var-type, enum-type as world-enum};
   @@world-type@@
   record world-rec {
     @@world-type-field@@
     x: rec-type,
+    y: world-enum,
   }
+  @@world-alias-of-renamed@@
+  type world-again = world-enum;
   @@world-func-import@@
-  import wfunc: func(a: world-rec) -> var-type;
+  import wfunc: func(a: world-rec, e: world-enum) -> var-type;
   @@world-func-export@@
-  export wexp: func(a: rec-type) -> world-rec;
+  export wexp: func(a: rec-type, g: world-again) -> world-enum;
 }
 "#;
 
@@ -168,8 +177,9 @@ world w {
   import imp;
   export imp;
   export exp;
+  use imp.{flags-type as world-flags};
   @@world-func-import@@
-  import wfunc: func(a: u32) -> u32;
+  import wfunc: func(a: world-flags) -> world-flags;
 }
 "#;
 
